@@ -115,3 +115,11 @@ Definition ex5_dict : list (string * pyv) :=
   [("charged_particles", VBool true); ("keep_hadrons", VBool false);
    ("multiplicity_cut", VTuple [VInt 1; VNone])]%string.
 Definition ex5_evs : list (list pobs) := [[ex5 1 1; ex5 2 0]; [ex5 3 0]; []; [ex5 4 (-1)]].
+Lemma example_ctor_vs_methods :
+  match file_loader (fun ev => gen_apply_kwargs_Oscar ev (VDict ex5_dict)) ex5_evs,
+        method_path gen_arity_Oscar gen_method_Oscar ex5_dict ex5_evs with
+  | Ok (ctor, counts), Ok meth =>
+      map (map pid) ctor = [[1]; []; [4]]%Z /\ map (map pid) meth = [[1]; [4]]%Z /\ counts = [1; 0; 1]%Z
+  | _, _ => False
+  end.
+Proof. vm_compute. repeat split; reflexivity. Qed.
